@@ -80,7 +80,11 @@ func storm(g, n int, seed uint64) {
 					check(b)
 					held = append(held[:k], held[k+1:]...)
 					if rnd.Chance(30) && cap(b) > 3 { // donate a re-sliced tail with an odd capacity
-						b = b[1+rnd.Intn(cap(b)/2):]
+						lo := 1 + rnd.Intn(cap(b)/2)
+						if lo > len(b) {
+							lo = len(b)
+						}
+						b = b[lo:]
 					}
 					donatedCap.Store(addr(b), b[:0:cap(b)])
 					pool.Put(b)
